@@ -35,6 +35,23 @@ pub struct World {
     // --- plain clone context bookkeeping ---
     pub plain_live: AtomicI64,
     pub plain_clones: AtomicU64,
+    /// every plain context value has its own identity: a clone made from, or a second release of,
+    /// a value that was released before is recorded here
+    pub plain_serial: AtomicU64,
+    pub plain_alive: Mutex<std::collections::BTreeSet<u64>>,
+    pub plain_dead_use: Mutex<Vec<String>>,
+    pub plain_last_new: AtomicU64,
+    /// order of events during one consuming call (erased side): instance entered / instance
+    /// destroyed / plain context value released
+    pub events: Mutex<Vec<Ev>>,
+    pub record_events: AtomicBool,
+}
+
+#[derive(Clone, Copy, Debug, PartialEq, Eq)]
+pub enum Ev {
+    Enter(u32),
+    InstDrop(u32),
+    CtxDrop(u64),
 }
 
 impl World {
@@ -52,6 +69,12 @@ impl World {
             check_backtrace: AtomicBool::new(false),
             plain_live: AtomicI64::new(0),
             plain_clones: AtomicU64::new(0),
+            plain_serial: AtomicU64::new(1),
+            plain_alive: Mutex::new(std::collections::BTreeSet::new()),
+            plain_dead_use: Mutex::new(Vec::new()),
+            plain_last_new: AtomicU64::new(0),
+            events: Mutex::new(Vec::new()),
+            record_events: AtomicBool::new(false),
         })
     }
     pub fn take_log(&self, side: usize) -> Vec<Entry> {
@@ -108,6 +131,9 @@ impl Core {
                 self.world.ran_after_unload.lock().unwrap().push(format!("method {} of instance {}", method, self.id));
             }
             self.world.log[self.side].lock().unwrap().push(Entry { id: self.id, method, digest, ptrs: ptrs.to_vec() });
+            if self.side == ERASED && self.world.record_events.load(Ordering::SeqCst) {
+                self.world.events.lock().unwrap().push(Ev::Enter(self.id));
+            }
         })
     }
 
@@ -140,6 +166,9 @@ impl Drop for Core {
                 self.world.double_drop.fetch_add(1, Ordering::SeqCst);
             }
             self.world.drop_log[self.side].lock().unwrap().push(self.id);
+            if self.side == ERASED && self.world.record_events.load(Ordering::SeqCst) {
+                self.world.events.lock().unwrap().push(Ev::InstDrop(self.id));
+            }
         })
     }
 }
@@ -184,22 +213,46 @@ impl Drop for CtxPayload {
 pub struct PlainCtx {
     pub world: Arc<World>,
     pub tag: u64,
+    /// identity of this value (a bitwise copy of a released value shows as a dead serial)
+    pub serial: u64,
 }
 impl PlainCtx {
+    fn register(world: &Arc<World>) -> u64 {
+        untracked(|| {
+            let s = world.plain_serial.fetch_add(1, Ordering::SeqCst);
+            world.plain_alive.lock().unwrap().insert(s);
+            s
+        })
+    }
     pub fn new(world: &Arc<World>) -> PlainCtx {
         world.plain_live.fetch_add(1, Ordering::SeqCst);
-        PlainCtx { world: world.clone(), tag: 0xC0FFEE }
+        let serial = Self::register(world);
+        world.plain_last_new.store(serial, Ordering::SeqCst);
+        PlainCtx { world: world.clone(), tag: 0xC0FFEE, serial }
     }
 }
 impl Clone for PlainCtx {
     fn clone(&self) -> Self {
+        untracked(|| {
+            if !self.world.plain_alive.lock().unwrap().contains(&self.serial) {
+                self.world.plain_dead_use.lock().unwrap().push(format!("a context was cloned from context value #{} after that value had been released", self.serial));
+            }
+        });
         self.world.plain_live.fetch_add(1, Ordering::SeqCst);
         self.world.plain_clones.fetch_add(1, Ordering::SeqCst);
-        PlainCtx { world: self.world.clone(), tag: self.tag }
+        PlainCtx { world: self.world.clone(), tag: self.tag, serial: Self::register(&self.world) }
     }
 }
 impl Drop for PlainCtx {
     fn drop(&mut self) {
         self.world.plain_live.fetch_sub(1, Ordering::SeqCst);
+        untracked(|| {
+            if !self.world.plain_alive.lock().unwrap().remove(&self.serial) {
+                self.world.plain_dead_use.lock().unwrap().push(format!("context value #{} was released twice", self.serial));
+            }
+            if self.world.record_events.load(Ordering::SeqCst) {
+                self.world.events.lock().unwrap().push(Ev::CtxDrop(self.serial));
+            }
+        })
     }
 }
